@@ -3,12 +3,14 @@ package main
 import (
 	"bufio"
 	"bytes"
+	"crypto/sha256"
 	"encoding"
 	"encoding/binary"
 	"encoding/hex"
 	"encoding/json"
 	"fmt"
 	"os"
+	"path/filepath"
 	"reflect"
 	"runtime"
 	"runtime/debug"
@@ -41,26 +43,76 @@ type job struct {
 
 // oneCase is a saved case (replay files): an entry point, a type and the input.
 type oneCase struct {
-	Entry string `json:"entry"` // DecodeFrom | json | json-direct | text
-	Type  string `json:"type"`
-	Hex   string `json:"hex"`
-	Key   string `json:"key"`
+	Entry   string `json:"entry"` // DecodeFrom | json | json-direct | text
+	Type    string `json:"type"`
+	Hex     string `json:"hex"`
+	Key     string `json:"key"`
+	Verdict bool   `json:"verdict,omitempty"` // only measure and print a "peak" line (the caller reports)
+}
+
+// peakLine is what a fresh process reports about the allocation of one case.
+type peakLine struct {
+	K       string `json:"k"` // "peak"
+	Total   uint64 `json:"total"`
+	Peak    uint64 `json:"peak"` // smallest of three
+	Bad     bool   `json:"bad"`  // the case panicked / did not return (reported elsewhere)
+	Generic bool   `json:"generic"`
+	Stack   string `json:"stack"`
+}
+
+// freshVerdict runs the case in a fresh worker process (kind "one") and returns its allocation measurements.
+func (w *worker) freshVerdict(it item) (peakLine, error) {
+	var v peakLine
+	dir := filepath.Dir(w.j.Out)
+	base := filepath.Join(dir, fmt.Sprintf("fresh-%d-%d", os.Getpid(), w.freshSeq))
+	w.freshSeq++
+	lines := filepath.Join(dir, "none.lines")
+	if _, err := os.Stat(lines); err != nil {
+		os.WriteFile(lines, []byte("BLOBS []\nFIXED {}\nTAILS []\nJSONCAT []\nTEXTCAT []\nCLASSES []\n"), 0o644)
+	}
+	j := job{Kind: "one", Lines: lines, Out: base + ".out", Progress: base + ".progress", DeadlineMs: w.j.DeadlineMs,
+		One: &oneCase{Entry: it.entry, Type: it.typ, Hex: hex.EncodeToString(it.in), Key: it.key, Verdict: true}}
+	jb, _ := json.Marshal(j)
+	os.WriteFile(base+".job", jb, 0o644)
+	defer func() { os.Remove(base + ".job"); os.Remove(base + ".out"); os.Remove(base + ".progress") }()
+	code, stderr, timedOut := runProcess(base+".job", 4*longDeadline)
+	if timedOut || code != 0 {
+		return v, fmt.Errorf("fresh process exit %d (timed out: %v): %s", code, timedOut, firstLines(stderr, 2))
+	}
+	out, _ := os.ReadFile(base + ".out")
+	for _, ln := range strings.Split(string(out), "\n") {
+		if json.Unmarshal([]byte(ln), &v) == nil && v.K == "peak" {
+			return v, nil
+		}
+	}
+	return v, fmt.Errorf("fresh process printed no measurement")
 }
 
 // result lines written by a worker (ndjson)
 type unitLine struct {
-	K       string         `json:"k"` // "unit"
-	Entry   string         `json:"entry"`
-	Type    string         `json:"type"`
-	Unit    int            `json:"unit"`
-	N       int            `json:"n"`
-	OK      int            `json:"ok"`
-	Err     int            `json:"err"`
-	Skipped int            `json:"skipped"`
-	Classes map[string]int `json:"classes"`
-	Remeas  int            `json:"remeasured"`
-	Trivial int            `json:"trivial"`                // cases whose input equals the valid one (the replacement is what was there already)
-	Generic int            `json:"generic_json_inflation"` // over the bound, but allocated by encoding/json itself (element size x element count)
+	K          string         `json:"k"` // "unit"
+	Entry      string         `json:"entry"`
+	Type       string         `json:"type"`
+	Unit       int            `json:"unit"`
+	N          int            `json:"n"`
+	OK         int            `json:"ok"`
+	Err        int            `json:"err"`
+	Skipped    int            `json:"skipped"`
+	Classes    map[string]int `json:"classes"`
+	Remeas     int            `json:"remeasured"`
+	Churn      int            `json:"churn"`           // cases over the bound in total allocation but not in peak heap growth (garbage, not memory held)
+	ChurnMax   uint64         `json:"churn_max_total"` // the largest total allocation among them, its peak heap growth, input length, key
+	ChurnPeak  uint64         `json:"churn_max_peak"`
+	ChurnInput int            `json:"churn_max_input"`
+	ChurnKey   string         `json:"churn_max_key"`
+	Trivial    int            `json:"trivial"`                // cases whose input equals the valid one (the replacement is what was there already)
+	Generic    int            `json:"generic_json_inflation"` // over the bound, but allocated by encoding/json itself (element size x element count)
+}
+
+type slowLine struct {
+	K       string  `json:"k"` // "slow"
+	Key     string  `json:"key"`
+	Seconds float64 `json:"seconds"`
 }
 
 type violLine struct {
@@ -71,15 +123,16 @@ type violLine struct {
 }
 
 type worker struct {
-	j      job
-	cat    *catalogue
-	g      *guard
-	out    *bufio.Writer
-	outF   *os.File
-	prog   *os.File
-	skip   map[string]bool
-	single bool // execute exactly one case (reproduction of a process death)
-	seenV  map[string]int
+	j        job
+	cat      *catalogue
+	g        *guard
+	out      *bufio.Writer
+	outF     *os.File
+	prog     *os.File
+	skip     map[string]bool
+	single   bool // execute exactly one case (reproduction of a process death)
+	freshSeq int
+	seenV    map[string]int
 	// costly[class]: failures of the class that cost a deadline or three measured runs; beyond the budget the class is not
 	// executed any more in this worker (a tree whose basic decoder is broken would otherwise fail a million times)
 	costly map[string]int
@@ -162,6 +215,11 @@ func workerMain(jobPath string) {
 	runtime.MemProfileRate = 4096 // fine-grained allocation profile: it names the code that over-allocates
 	if j.DeadlineMs > 0 {
 		deadline = time.Duration(j.DeadlineMs) * time.Millisecond
+		longDeadline, slowThreshold = 4*deadline, deadline/2
+	}
+	if j.Kind == "one" {
+		// a measuring process: two threads (the case and the sampler's collector) keep a forced collection short
+		runtime.GOMAXPROCS(2)
 	}
 	switch j.Kind {
 	case "canary":
@@ -189,6 +247,14 @@ const batchSize = 32
 // costlyBudget: hangs + over-allocations of one corruption class a worker pays for before it stops executing the class.
 const costlyBudget = 12
 
+// slowKey names a slow case: the place in core it was seen at (when known), else its skip key.
+func (it item) slowKey(stack string) string {
+	if site := panicSite(stack); site != "" {
+		return strings.SplitN(it.key, "/", 2)[0] + "/" + site + "/" + it.class
+	}
+	return it.key
+}
+
 // item is one prepared case of a batch.
 type item struct {
 	idx   int
@@ -197,6 +263,9 @@ type item struct {
 	run   func() error
 	fail  func(kind string, o outcome, alloc uint64) // reports a violation
 	class string
+	// the case as a fresh process can run it (allocation verdict)
+	entry, typ string
+	in         []byte
 }
 
 // runBatch executes prepared cases; allocation is metered over the batch and, when the batch as a whole exceeds the
@@ -209,17 +278,20 @@ func (w *worker) runBatch(unit int, items []item, ul *unitLine) {
 		o := w.g.run(it.run)
 		ul.N++
 		ul.Classes[it.class]++
-		switch {
-		case o.TimedOut:
-			// a violation only if the same input misses the deadline again, alone
-			o2 := w.g.run(it.run)
-			if o2.TimedOut {
-				it.fail("hang", o2, 0)
-				w.skip[it.key] = true
-				w.costly[it.class]++
-			} else if o2.Panic != "" {
-				it.fail("panic", o2, 0)
+		if o.slow() { // an observation, not a verdict
+			st := o.SlowStack
+			if st == "" {
+				st = o.Stack
 			}
+			w.emit(slowLine{"slow", it.slowKey(st), o.Seconds})
+			w.skip[it.key] = true // once observed; the class's further cases would each cost as long
+			w.costly[it.class]++
+		}
+		switch {
+		case o.TimedOut: // the case ran alone (one case at a time in this process) and has not returned by the long deadline
+			it.fail("hang", o, 0)
+			w.skip[it.key] = true
+			w.costly[it.class]++
 		case o.Panic != "":
 			it.fail("panic", o, 0)
 		case o.Err:
@@ -230,29 +302,45 @@ func (w *worker) runBatch(unit int, items []item, ul *unitLine) {
 			suspects = append(suspects, i)
 		}
 	}
+	// first stage (cheap): did the batch allocate, in total, more than the smallest bound?
 	if totalAlloc()-before <= 1<<20 {
 		return
 	}
 	for _, i := range suspects {
 		it := items[i]
 		w.progress(unit, it.idx)
+		// second stage: the case alone, total allocation
 		o, a := w.g.measure(it.run)
 		if o.bad() || a <= allocBound(it.n) {
 			continue
 		}
 		ul.Remeas++
-		o, a = w.g.confirmAlloc(it.run)
-		if !o.bad() && a > allocBound(it.n) {
-			var generic bool
-			o.Stack, generic = w.g.allocStackG(it.run) // who allocates: names the failing code whatever object it was reached through
-			if generic {
-				ul.Generic++
-				continue
-			}
-			it.fail("alloc", o, a)
-			w.skip[it.key] = true // the class is reported; its further cases would each cost three measured runs
-			w.costly[it.class]++
+		// verdict: PEAK heap growth during the call (memory held, not garbage churned), smallest of three, measured in a
+		// fresh process whose own heap is tiny (the collector then follows the case closely)
+		v, err := w.freshVerdict(it)
+		if err != nil {
+			w.emit(map[string]any{"k": "infra", "what": fmt.Sprintf("allocation verdict of %s: %v", it.key, err)})
+			continue
 		}
+		if v.Bad {
+			continue
+		}
+		pk := v.Peak
+		if pk <= allocBound(it.n) {
+			ul.Churn++ // allocates a lot in total, holds little
+			if ul.ChurnMax < a {
+				ul.ChurnMax, ul.ChurnPeak, ul.ChurnInput, ul.ChurnKey = a, pk, it.n, it.key
+			}
+			continue
+		}
+		if v.Generic {
+			ul.Generic++
+			continue
+		}
+		o.Stack = v.Stack // who allocates: names the failing code whatever object it was reached through
+		it.fail("alloc", o, pk)
+		w.skip[it.key] = true // the class is reported; its further cases would each cost several measured runs
+		w.costly[it.class]++
 	}
 }
 
@@ -261,9 +349,9 @@ func describe(kind string, o outcome, alloc uint64, n int) string {
 	case "panic":
 		return "panics: " + o.Panic
 	case "hang":
-		return fmt.Sprintf("does not return within %v (twice)", deadline)
+		return fmt.Sprintf("has not returned after %v", longDeadline)
 	case "alloc":
-		return fmt.Sprintf("allocates %d bytes for an input of %d bytes (bound 64 x input + 1 MiB = %d; smallest of three measurements alone)", alloc, n, allocBound(n))
+		return fmt.Sprintf("holds %d bytes of heap at its peak for an input of %d bytes (bound 64 x input + 1 MiB = %d; smallest of three measurements alone)", alloc, n, allocBound(n))
 	}
 	return kind
 }
@@ -336,7 +424,7 @@ func (w *worker) decodeAll() {
 				if bytes.Equal(dc.B, sh.Bytes) {
 					ul.Trivial++
 				}
-				items = append(items, item{idx: ci, key: key, n: len(dc.B), class: dc.Class,
+				items = append(items, item{idx: ci, key: key, n: len(dc.B), class: dc.Class, entry: "DecodeFrom", typ: sh.Type, in: dc.B,
 					run: func() error { _, _, err := t.Decode(dc.B); return err },
 					fail: func(kind string, o outcome, alloc uint64) {
 						p := decodePayload(sh, ci, dc)
@@ -431,7 +519,7 @@ func (w *worker) jsonUnit(u int, rt jroot, first int) {
 			ul.Skipped++
 			return true
 		}
-		items = append(items, item{idx: i, key: skipKey, n: len(jc.Doc), class: jc.Class, run: run,
+		items = append(items, item{idx: i, key: skipKey, n: len(jc.Doc), class: jc.Class, run: run, entry: entry, typ: rt.Name, in: jc.Doc,
 			fail: func(kind string, o outcome, alloc uint64) {
 				key := jsonKey(entry, rt.Name, jc.Leaf, jc.Where, jc.Class, o)
 				doc := string(jc.Doc)
@@ -473,7 +561,7 @@ func (w *worker) textUnit(u int, rt jroot, first int) {
 			ul.Skipped++
 			return true
 		}
-		items = append(items, item{idx: i, key: skipKey, n: len(tc.Text), class: tc.Class,
+		items = append(items, item{idx: i, key: skipKey, n: len(tc.Text), class: tc.Class, entry: "text", typ: rt.Name, in: tc.Text,
 			run: func() error { return reflect.New(rt.T).Interface().(encoding.TextUnmarshaler).UnmarshalText(tc.Text) },
 			fail: func(kind string, o outcome, alloc uint64) {
 				key := jsonKey("text", rt.Name, "", "-", tc.Class, o)
@@ -498,19 +586,33 @@ func (w *worker) textUnit(u int, rt jroot, first int) {
 // verdict machinery): a panic, an allocation of 8 MiB for 16 bytes, a call that outlives the deadline, and a benign one.
 var canarySink [][]byte
 
+var canaryFuncs = map[string]func() error{
+	"benign":    func() error { _ = make([]byte, 1000); return fmt.Errorf("rejected") },
+	"panics":    func() error { var p *oneCase; _ = p.Hex; return nil },
+	"allocates": func() error { canarySink = append(canarySink[:0], make([]byte, 8<<20)); return nil }, // 8 MiB held for 16 bytes
+	"slow":      func() error { time.Sleep(2 * deadline); return nil },                                 // returns before the long deadline: an observation
+	"hangs":     func() error { time.Sleep(3 * longDeadline); return nil },                             // does not
+	"churns": func() error { // 16 MiB of garbage in total, 32 KiB held at any time, at the pace of a parser (~400 MB/s)
+		for i := 0; i < 512; i++ {
+			b := make([]byte, 32<<10)
+			h := sha256.Sum256(b)
+			b[0] = h[0]
+			canarySink = append(canarySink[:0], b)
+		}
+		return nil
+	},
+}
+
 func (w *worker) canaries() {
 	ul := &unitLine{K: "unit", Entry: "canary", Type: "canary", Classes: map[string]int{}}
 	in := make([]byte, 16)
-	mk := func(i int, name string, run func() error) item {
-		return item{idx: i, key: "canary/" + name, n: len(in), class: name, run: run, fail: func(kind string, o outcome, alloc uint64) {
-			w.violation("canary/"+name+"/"+kind, describe(kind, o, alloc, len(in)), map[string]any{"stack": o.Stack})
-		}}
-	}
-	items := []item{
-		mk(0, "benign", func() error { _ = make([]byte, 1000); return fmt.Errorf("rejected") }),
-		mk(1, "panics", func() error { var p *oneCase; _ = p.Hex; return nil }),
-		mk(2, "allocates", func() error { canarySink = append(canarySink[:0], make([]byte, 8<<20)); return nil }),
-		mk(3, "hangs", func() error { time.Sleep(3 * deadline); return nil }),
+	var items []item
+	for i, name := range []string{"benign", "panics", "allocates", "slow", "hangs", "churns"} {
+		name := name
+		items = append(items, item{idx: i, key: "canary/" + name, n: len(in), class: name, run: canaryFuncs[name], entry: "canary", typ: name, in: in,
+			fail: func(kind string, o outcome, alloc uint64) {
+				w.violation("canary/"+name+"/"+kind, describe(kind, o, alloc, len(in)), map[string]any{"stack": o.Stack})
+			}})
 	}
 	w.runBatch(0, items, ul)
 	w.emit(ul)
@@ -526,6 +628,12 @@ func (w *worker) runOne() {
 	}
 	var run func() error
 	switch oc.Entry {
+	case "canary":
+		run = canaryFuncs[oc.Type]
+		if run == nil {
+			fmt.Fprintln(os.Stderr, "worker: unknown canary", oc.Type)
+			os.Exit(3)
+		}
 	case "DecodeFrom":
 		t := wb.TypeByName(oc.Type)
 		if t == nil {
@@ -559,24 +667,35 @@ func (w *worker) runOne() {
 	}
 	w.progress(0, 0)
 	ul := &unitLine{K: "unit", Entry: oc.Entry, Type: oc.Type, Classes: map[string]int{}}
-	it := item{idx: 0, key: oc.Key, n: len(b), class: "replay", run: run, fail: func(kind string, o outcome, alloc uint64) {
+	fail := func(kind string, o outcome, alloc uint64) {
+		if oc.Verdict {
+			return
+		}
 		w.violation(oc.Key, fmt.Sprintf("%s of %s %s (%d bytes)", oc.Entry, oc.Type, describe(kind, o, alloc, len(b)), len(b)),
 			map[string]any{"entry": oc.Entry, "type": oc.Type, "outcome": kind, "panic": o.Panic, "stack": o.Stack, "allocated": alloc, "hex": capHex(b)})
-	}}
-	// always measure alone
+	}
+	// this process holds next to nothing: its collector follows the case closely
 	o, a := w.g.measure(run)
+	pl := peakLine{K: "peak", Total: a, Bad: o.bad()}
 	switch {
 	case o.TimedOut:
-		if o2 := w.g.run(run); o2.TimedOut {
-			it.fail("hang", o2, 0)
-		}
+		fail("hang", o, 0)
 	case o.Panic != "":
-		it.fail("panic", o, 0)
+		fail("panic", o, 0)
 	case a > allocBound(len(b)):
-		if o, a = w.g.confirmAlloc(run); !o.bad() && a > allocBound(len(b)) {
-			o.Stack = w.g.allocStack(run)
-			it.fail("alloc", o, a)
+		o2, pk := w.g.confirmPeak(run)
+		pl.Peak, pl.Bad = pk, o2.bad()
+		if !o2.bad() && pk > allocBound(len(b)) {
+			pl.Stack, pl.Generic = w.g.allocStackG(run)
+			if !pl.Generic {
+				o2.Stack = pl.Stack
+				fail("alloc", o2, pk)
+			}
 		}
+	}
+	w.emit(pl)
+	if o.slow() {
+		w.emit(slowLine{"slow", oc.Key, o.Seconds})
 	}
 	ul.N = 1
 	w.emit(ul)
